@@ -24,11 +24,11 @@ const inf = 1 << 29
 
 // GraphCase is a weighted digraph on vertices 0..N-1 (W[i][j] < 0: no edge).
 type GraphCase struct {
-	N      int     `json:"n"`
-	W      [][]int `json:"w"`
-	Src    int     `json:"src"`
-	Decl   []int   `json:"decline,omitempty"` // DFS decline set
-	Kind   string  `json:"kind,omitempty"`
+	N    int     `json:"n"`
+	W    [][]int `json:"w"`
+	Src  int     `json:"src"`
+	Decl []int   `json:"decline,omitempty"` // DFS decline set
+	Kind string  `json:"kind,omitempty"`
 }
 
 func (c GraphCase) String() string {
@@ -137,7 +137,9 @@ func floyd(n int, w [][]int) [][]int {
 
 // checkDijkstra runs the real Dijkstra on the case and compares with Floyd-Warshall.
 func checkDijkstra(c GraphCase) (fs []Finding) {
-	add := func(clause, m string, a ...interface{}) { fs = append(fs, Finding{"C18", clause, fmt.Sprintf(m, a...)}) }
+	add := func(clause, m string, a ...interface{}) {
+		fs = append(fs, Finding{"C18", clause, fmt.Sprintf(m, a...)})
+	}
 	defer func() {
 		if r := recover(); r != nil {
 			if _, ok := r.(verifrt.HarnessError); ok {
@@ -149,6 +151,11 @@ func checkDijkstra(c GraphCase) (fs []Finding) {
 	verifrt.ResetBudget()
 	d := floyd(c.N, c.W)
 	g := buildGraph(c.N, c.W)
+	if c.N > 1 {
+		// a search from another source on the same Graph value first: results must not
+		// depend on earlier searches
+		g.Dijkstra((c.Src + 1) % c.N)
+	}
 	distTo, edgeTo := g.Dijkstra(c.Src)
 	for v := 0; v < c.N; v++ {
 		path := g.EdgeToPath(v, edgeTo)
@@ -291,7 +298,9 @@ func reachMatrix(n int, w [][]int) [][]bool {
 }
 
 func checkTraversal(c GraphCase) (fs []Finding) {
-	add := func(clause, m string, a ...interface{}) { fs = append(fs, Finding{"C20", clause, fmt.Sprintf(m, a...)}) }
+	add := func(clause, m string, a ...interface{}) {
+		fs = append(fs, Finding{"C20", clause, fmt.Sprintf(m, a...)})
+	}
 	defer func() {
 		if r := recover(); r != nil {
 			if _, ok := r.(verifrt.HarnessError); ok {
